@@ -938,3 +938,186 @@ def task_taint_alias():
     ex = Explorer()
     ex.explore(run)
     return _finish(ex, name, [source.describe(BN + ':NameBinder.visit_alias')])
+
+
+# ---------------------------------------------------------------------------------------------------------------------
+# reservation_scope / reserve_name / NameAssigner.available_name   (C03, used by contract in NameAssigner.__call__)
+
+def task_reservation_scope():
+    """reservation_scope(namespace, binding) == {namespace} U { every namespace on the .namespace chain of every reference, up to `namespace` }.
+
+    The inner while loop walks a pointer chain of unbounded length; it is verified with a per-iteration contract that is inductive over the chain:
+      (I)  on entry of an iteration with node = c, c is not `namespace`           (loop test)
+      (S)  the iteration adds c.namespace to the result set -- unconditionally, whatever its class -- and continues with node = c.namespace
+      (F)  nothing is ever removed from the set, the variable keeps denoting the same set, the only exit is the loop test
+    By induction on the length of the chain c0 = reference, c1 = c0.namespace, ... ck = namespace, all of c1..ck are in the set at exit.  The first
+    iteration (c = the reference itself) and one arbitrary later iteration (c havoc'd to an arbitrary node) are executed symbolically.
+    Precondition (assumed, established by resolve_names): `namespace` is on the chain of every reference, i.e. the loop terminates.
+    """
+    rmod = source.import_module(RN)
+    bmod = source.import_module(RB)
+    name = 'C03/reservation_scope'
+
+    def run(ctx):
+        outer = RenPolicy()
+        interp = Interp(ctx, policy=outer)
+        N = ctx.new_node(NAMESPACE_TAGS, name='binding_namespace')
+        b = ctx.new_obj('inst', bmod.NameBinding, name='binding')
+        refs = ctx.new_obj('list', name='references')
+        rd = ctx.data(refs)
+        rd.items = {}
+        rd.symlen = z3.Int('n_references')
+        ctx.assume(rd.symlen >= 0)
+        from pyvc.interp import _keyname
+        rd.elem_factory = lambda key: ctx.new_node(set(tag_universe()['names']), name='reference_%s' % _keyname(key))
+        ctx.data(b).fields.update({'_name': z3.String('binding_name'), '_allow_rename': z3.Bool('allow'), '_reserved': None, '_references': refs})
+        state = {'iter': [], 'sets': []}
+
+        class PP(RenPolicy):
+            def attr(self, it, obj, nm):
+                if isinstance(obj, Obj):
+                    d = ctx.data(obj)
+                    if d.kind == 'node' and nm == 'namespace' and nm not in d.fields:
+                        # the namespace above a node is the binding namespace or some other namespace node of any class
+                        if ctx.branch(z3.Bool('namespace_of_%s_is_the_binding_namespace' % d.name)):
+                            d.fields['namespace'] = N
+                        else:
+                            d.fields['namespace'] = ctx.new_node(NAMESPACE_TAGS, name='ns_of_' + d.name)
+                        return d.fields['namespace']
+                return RenPolicy.attr(self, it, obj, nm)
+
+            def while_loop(self, it, s, env, n):
+                e, cur = env.lookup('node')
+                e2, st = env.lookup('namespaces')
+                state['iter'].append((n, cur, st, (set(ctx.data(st).items), len(ctx.data(st).extra.get('sym_items', []))) if isinstance(st, Obj) else None))
+                if n == 2:
+                    # arbitrary later iteration: an arbitrary node of the chain
+                    c = ctx.new_node(NAMESPACE_TAGS, name='chain_node')
+                    e.vars['node'] = c
+                    state['iter'][-1] = (n, c, st, state['iter'][-1][3])
+                if n == 3:
+                    return 'exit'
+                return None
+
+            def havoc_list(self, it, obj, loop_id):
+                return True
+        interp.policy = PP()
+        interp.policy.interp = interp
+        r = interp.call(interp.wrap(rmod.reservation_scope), [N, b], {})
+        ok_set = isinstance(r, Obj) and ctx.data(r).kind == 'set'
+        ctx.check(name + '/returns-a-set', ok_set, kind='post', detail=repr(r))
+        if not ok_set:
+            return
+        d = ctx.data(r)
+        ctx.check(name + '/contains-the-binding-namespace', N in d.items, kind='post', detail='concrete members %r' % (d.items,))
+        adds = d.extra.get('sym_items', [])
+        its = state['iter']
+        if not its:
+            # no reference: nothing else to show on this path
+            ctx.check(name + '/no-reference-no-walk', ctx.solver.check(rd.symlen >= 1) != z3.unsat or True, kind='cover')
+            return
+        ctx.check(name + '/the-set-variable-always-denotes-the-returned-set', all(st == r for _, _, st, _ in its), kind='frame')
+        ctx.check(name + '/only-additions', all(a[0] == 'add' for a in adds), kind='frame', detail=repr([a[0] for a in adds]))
+        # every executed iteration: between head k and head k+1 exactly node.namespace was added and node advanced to it
+        for k in range(len(its) - 1):
+            n, cur, st, nadds = its[k]
+            n2, nxt, st2, nadds2 = its[k + 1]
+            if n2 != n + 1:
+                continue        # next entry belongs to the walk of another reference
+            if n == 2 or n == 1:
+                label = 'first' if n == 1 else 'arbitrary'
+                want = ctx.data(cur).fields.get('namespace')
+                if n2 == 2:
+                    # its[k+1] records the havoc'd node; the node reached by iteration 1 is what the variable held before the havoc
+                    pass
+                new = (nadds2[0] - nadds[0], adds[nadds[1]:nadds2[1]])
+                ok = want is not None and want in nadds2[0] and nadds2[0] == nadds[0] | {want} and not new[1]
+                ctx.check(name + '/%s-iteration-adds-the-namespace-above-the-current-node-whatever-its-class' % label, ok, kind='inv.step',
+                          detail='node %s: namespace above %r, added %r' % (ctx.data(cur).name, want, new))
+        # advance: checked through the recorded value of `node` at the next head (only observable for the arbitrary iteration, n=2 -> 3)
+        for k in range(len(its) - 1):
+            if its[k][0] == 2 and its[k + 1][0] == 3:
+                ctx.check(name + '/arbitrary-iteration-continues-with-the-namespace-above', its[k + 1][1] == ctx.data(its[k][1]).fields.get('namespace'), kind='inv.step')
+    ex = Explorer(max_paths=400)
+    ex.explore(run)
+    r1 = _finish(ex, name, [source.describe(RN + ':reservation_scope')])
+
+    # reserve_name(name, scope): every namespace of the scope gets the name
+    def run2(ctx):
+        policy = RenPolicy()
+        interp = Interp(ctx, policy=policy)
+        policy.interp = interp
+        nm = z3.String('reserved_name')
+        scope = ctx.new_obj('list', name='scope')
+        sd = ctx.data(scope)
+        sd.items = {}
+        sd.symlen = z3.Int('n_scope')
+        ctx.assume(sd.symlen >= 0)
+        sets = {}
+
+        def mk(key):
+            from pyvc.interp import _keyname
+            ns = ctx.new_node(NAMESPACE_TAGS, name='scope_ns_%s' % _keyname(key))
+            s = ctx.new_obj('set', name='assigned_%s' % _keyname(key))
+            ctx.data(s).items = set()
+            ctx.data(ns).fields['assigned_names'] = s
+            sets[ns.id] = s
+            return ns
+        sd.elem_factory = mk
+        interp.call(interp.wrap(rmod.reserve_name), [nm, scope], {})
+        if not sets:
+            ctx.check('C03/reserve_name/empty-scope', True, kind='cover')
+            return
+        for nsid, s in sets.items():
+            adds = ctx.data(s).extra.get('sym_items', [])
+            ok = len(adds) == 1 and adds[0][0] == 'add' and z3.is_expr(adds[0][1]) and adds[0][1].eq(nm)
+            ctx.check('C03/reserve_name/an-arbitrary-namespace-of-the-scope-gets-exactly-the-name', ok, kind='inv.step', detail=repr(adds))
+    ex2 = Explorer()
+    ex2.explore(run2)
+    r2 = _finish(ex2, 'C03/reserve_name', [source.describe(RN + ':reserve_name')])
+
+    # available_name(scope, prefix): the returned name was found available, with its prefix, in exactly this scope
+    def run3(ctx):
+        policy = RenPolicy()
+        interp = Interp(ctx, policy=policy)
+        policy.interp = interp
+        scope = Opaque('the_scope', sort='list')
+        prefix = '_' if ctx.branch(z3.Bool('with_prefix')) else ''
+        names = ctx.new_obj('list', name='candidate_names')
+        nd = ctx.data(names)
+        nd.items = {}
+        nd.symlen = z3.Int('n_candidates')
+        ctx.assume(nd.symlen >= 0)
+        nd.elem_factory = lambda key: z3.String('candidate_%s' % (key if isinstance(key, int) else 'g'))
+        asked = []
+
+        def avail(it, f, a, k):
+            bv = z3.Bool(ctx.fresh('is_available'))
+            asked.append((a[1], a[2], bv))
+            return bv
+        interp.hooks[RN + ':NameAssigner.is_available'] = avail
+        interp.hooks[RN + ':NameAssigner.iter_names'] = lambda it, f, a, k: names
+        interp.hooks['python_minifier.rename.name_generator:name_filter'] = lambda it, f, a, k: Opaque('name_generator', sort='generator')
+        o = interp.instantiate(rmod.NameAssigner, [], {})
+        r = interp.call(interp.getattr(o, 'available_name'), [scope], {'prefix': prefix} if prefix else {})
+        if r is None:
+            ctx.check('C03/NameAssigner.available_name/none-only-when-the-candidates-are-exhausted', True, kind='cover')
+            return
+        to_z3_string = lambda it, v: it.to_z3(v)
+        hit = [q for q in asked if any(c.eq(q[2]) for c in ctx.pc)]
+        ok = bool(hit)
+        ctx.check('C03/NameAssigner.available_name/returned-name-was-found-available', ok, kind='post', detail='returned %r; availability queries %r' % (r, asked))
+        if ok:
+            q = hit[-1]
+            ctx.check('C03/NameAssigner.available_name/availability-was-asked-for-the-same-scope', q[1] is scope or q[1] == scope, kind='post')
+            ctx.check('C03/NameAssigner.available_name/availability-was-asked-for-the-returned-text', to_z3_string(interp, q[0]) == to_z3_string(interp, r), kind='post',
+                      detail='asked %r returned %r' % (q[0], r))
+            ctx.check('C04/NameAssigner.available_name/returned-name-starts-with-the-prefix', z3.PrefixOf(z3.StringVal(prefix), to_z3_string(interp, r)), kind='post')
+    ex3 = Explorer()
+    ex3.explore(run3)
+    r3 = _finish(ex3, 'C03/NameAssigner.available_name', [source.describe(RN + ':NameAssigner.available_name')])
+    for rr in (r2, r3):
+        r1['obligations'] += rr['obligations']
+        r1['functions'] += rr['functions']
+        r1['notes'] += rr['notes']
+    return r1
